@@ -27,7 +27,8 @@ type ModelVal struct {
 	B      bool
 	F      float64  // nearest float64 (REAL) / exact (FP)
 	R      *big.Rat // exact value in REAL mode when rational
-	Inexact bool    // algebraic number or otherwise not exactly representable
+	Inexact bool    // algebraic number: R is unavailable
+	FInexact bool   // F is only the nearest float64 of R
 }
 
 type Model map[string]ModelVal
@@ -509,7 +510,7 @@ func parseValue(e *sexp) ModelVal {
 		return ModelVal{Inexact: true, F: math.NaN()}
 	}
 	f, fexact := r.Float64()
-	return ModelVal{R: r, F: f, Inexact: !exact || !fexact}
+	return ModelVal{R: r, F: f, Inexact: !exact, FInexact: !fexact}
 }
 
 // RunExternal decides a script with another solver binary (cross-check).
